@@ -23,7 +23,8 @@ META = {
             "first checkpoint, a global or loop-carried variable only holds blocks of the final iteration.",
     "technique": "Lean 4 proof over the protocol state machine + instrumented execution of compiled loops with checkpointed heap accounting",
 }
-REQUIRED = ["live_iff_reachable", "acyclic_garbage_reclaimed", "loop_bounded", "cycle_leaks", "unreachable_not_held"]
+REQUIRED = ["live_iff_reachable", "acyclic_garbage_reclaimed", "loop_bounded", "cycle_leaks", "garbage_never_freed",
+            "cycle_never_freed", "unreachable_not_held"]
 
 
 def groups_of(mr):
